@@ -331,7 +331,8 @@ PLANS["C10"] = {
 def c11_steps(tier, seed):
     q = tier == "quick"
     return [{"name": "async-std-stream", "engine": "vha", "args": ["--seed", str(seed), "--trials", str(1500 if q else 60000)], "timeout": 600 if q else 3000}] + [native("close-sweep-%d" % i, ["w_close", "--seed", seed * 10 + i, "--reps", 1 if q else 4, "--random", 120 if q else 1500],
-                   timeout=300 if q else 2400) for i in range(1 if q else 3)]
+                   timeout=300 if q else 2400) for i in range(1 if q else 3)] + \
+        [native("close-istep", ["w_close", "--mode", "istep", "--shards", 16, "--stride", 3 if q else 1, "--seed", seed], timeout=900)]
 
 
 PLANS["C11"] = {
@@ -342,7 +343,9 @@ PLANS["C11"] = {
         "IT_PP_CLOSED_CHECKED, after-callback, IT_HAS_BEFORE_READ, IT_FLUSH_BEGIN/END, IT_SCAN, EX_LOAD} x occurrence 1..3 x "
         "{no delivery, one delivery}: the consumer is paused there, close() is called on a handle clone from another thread, the "
         "consumer is released; plus the closer paused between setting the flag and sending the wake; plus random-timing trials with "
-        "delays at all those sites and concurrent deliveries. A trial is non-trivial when the pause site was actually reached; "
+        "delays at all those sites and concurrent deliveries; plus the instruction-step sweep: the consumer single-steps itself from "
+        "each of those failpoints and at the k-th instruction (every k up to the next hook arrival; every 3rd in quick) stands still while "
+        "a closer thread runs close() to completion. A trial is non-trivial when the pause site was actually reached; "
         "distinct = distinct (front-end, paused party, site, occurrence, delivery) tuples",
         ["'returns after a bounded number of steps' is decided by the stable stuck state (blocked per /proc on an empty self-pipe "
          "after close() returned), never by elapsed time",
@@ -496,7 +499,8 @@ PLANS["C17"] = {
 
 def c04_steps(tier, seed):
     q = tier == "quick"
-    return [native("chain-trials", ["w_chain", "--seed", seed, "--reps", 3 if q else 15], timeout=600 if q else 3000)]
+    return [native("chain-trials", ["w_chain", "--seed", seed, "--reps", 3 if q else 15], timeout=600 if q else 3000),
+            native("chain-istep", ["w_chain", "--mode", "istep", "--shards", 16, "--stride", 5 if q else 1, "--seed", seed], timeout=900)]
 
 
 PLANS["C04"] = {
@@ -513,7 +517,10 @@ PLANS["C04"] = {
         "once (directly from the kernel before the switch, through the library after), before any action, with the same info pointer "
         "and a context; every dispatch bracket of the signal contains exactly one previous-handler call, first (none for "
         "default/ignore); process death = violation. A third of the site list per (disposition, signal) in quick (sharded by seed), "
-        "all of it in thorough. distinct = (disposition, std/rt, site#occurrence, bombard, slot-or-fallback path)",
+        "all of it in thorough. Instruction-step sweep: the registering thread single-steps itself from the call of the first "
+        "registration and from every hook arrival inside it, and the delivery is raised at the k-th instruction after that point, for "
+        "every k up to the next hook arrival (every 5th in quick), with and without another signal taken over first. "
+        "distinct = (disposition, std/rt, site#occurrence, bombard, slot-or-fallback path)",
         ["standard signals coalesce, so exact per-seq accounting under bombardment is limited to real-time signals",
          "a one-argument handler cannot tell how many arguments it was called with on this ABI; only its call count is checked",
          "Miri cannot run this (int -> fn pointer transmute, real sigaction)"]),
